@@ -441,6 +441,26 @@ impl Prop for C04 {
 				}
 			}
 		}
+		// lengths: scheme, first segment with ':' at every offset, through the calls that must add a shield
+		for (i, n) in gen::sweep_lengths(1100, 70_000).into_iter().enumerate() {
+			if i % nshards != shard {
+				continue;
+			}
+			let u = "_".repeat(n);
+			let x = "x".repeat(n);
+			let fam = if i % 2 == 0 { Fam::Uri } else { Fam::Iri };
+			for case in [
+				Case { fam, init: Init::PathBuf { text: format!("a:{}", "b".repeat(n)) }, ops: vec![Op::Path(vec![POp::Normalize])] },
+				Case { fam, init: Init::PathBuf { text: format!("x/../{u}:b") }, ops: vec![Op::Path(vec![POp::Normalize, POp::Push("c".into())])] },
+				Case { fam, init: Init::Parsed { full: false, text: format!("s:{u}:b/c") }, ops: vec![Op::Set(SetOp::Scheme(None)), Op::Path(vec![POp::Normalize])] },
+				Case { fam, init: Init::Parsed { full: false, text: "?q".into() }, ops: vec![Op::Set(SetOp::Path(format!("{u}:b"))), Op::Path(vec![POp::Pop, POp::Push(format!("{u}:c"))])] },
+				Case { fam, init: Init::Parsed { full: true, text: format!("s{x}://h//b/c") }, ops: vec![Op::Set(SetOp::Authority(None)), Op::Resolve(format!("t{x}://g/"))] },
+			] {
+				if !f(case, true) {
+					return vec![];
+				}
+			}
+		}
 		// every history of length <= 2 over a small op alphabet, from buffers of every shape
 		let inits = ["", "s:", "//h", "s://u@h:1/p?q#f", "./a:b", "/.//a", "s:a:b", "s://h", "?q", "#f", "s://", "a/b/../c", "s:/"];
 		let mut alphabet: Vec<Op> = vec![];
@@ -486,7 +506,7 @@ impl Prop for C04 {
 				}
 			}
 		}
-		vec!["huge arguments / buffers (1 MiB+3 and 2 MiB; thorough: 64 KiB+1 .. 8 MiB+1) through every setter, both handles, normalize and resolve, each followed by a small case on the same thread", "13 initial buffers x {reference, full} x every history of length <= 2 over 31 ops (setters incl. removal, one-op path handles, two-op authority handles, resolve)"]
+		vec!["scheme lengths and first segments with ':' at every offset 0..=1100 (and the usual limits up to 70 000) through normalize / set_scheme(None) / set_path / push / set_authority(None) / resolve", "huge arguments / buffers (1 MiB+3 and 2 MiB; thorough: 64 KiB+1 .. 8 MiB+1) through every setter, both handles, normalize and resolve, each followed by a small case on the same thread", "13 initial buffers x {reference, full} x every history of length <= 2 over 31 ops (setters incl. removal, one-op path handles, two-op authority handles, resolve)"]
 	}
 
 	fn floors(_tier: Tier) -> Vec<(&'static str, u64)> {
